@@ -1,6 +1,7 @@
 package main
 
 import (
+	"os"
 	"fmt"
 	"go/ast"
 	"go/token"
@@ -832,7 +833,17 @@ func (mr *machineRun) runRole(role string, t *obsTriple, idx int, cases []opCase
 		}
 		pcs = append(pcs, e.st.PC)
 		add("nopanic", boolLit(e.ex.Kind != ExitPanic), "the callback does not panic", e.st.PC)
-		evs, closed := effective(e.st.Events, mr.sp.Track...)
+		evs, closed := effective(e.st.Events, mr.trackList()...)
+		if debugPaths {
+			var all, kept []string
+			for _, ev := range e.st.Events {
+				all = append(all, ev.Name)
+			}
+			for _, ev := range evs {
+				kept = append(kept, ev.Name)
+			}
+			fmt.Fprintf(os.Stderr, "%s/%s exit=%d\n  all events: %v\n  tracked:    %v\n", mr.sp.Name, role, e.ex.Kind, all, kept)
+		}
 		// loop markers are part of the observable behaviour only when the contract speaks about the loop
 		mentionsLoop := false
 		for _, c := range cases {
@@ -1056,7 +1067,7 @@ func (mr *machineRun) runInit() {
 		}
 		pcs = append(pcs, e.st.PC)
 		if len(subCases) > 0 {
-			evs, _ := effective(e.st.Events, mr.sp.Track...)
+			evs, _ := effective(e.st.Events, mr.trackList()...)
 			for _, c := range subCases {
 				cv := map[string]SVal{}
 				for i, p := range c.Params {
@@ -1227,4 +1238,20 @@ func (mr *machineRun) runRequires() {
 	}
 	only := map[string][]Obl{"requires-established": byName["requires-established"]}
 	mr.emit(x, "construct", only, notes, pcs, x.pos(mr.top.Pos()))
+}
+
+// trackList: the contract's `track` names with the operator's aliases resolved.
+func (mr *machineRun) trackList() []string {
+	var out []string
+	for _, p := range mr.sp.Track {
+		if a, ok := mr.sp.Alias[p]; ok {
+			p = a
+		} else if i := strings.Index(p, "."); i > 0 {
+			if a, ok := mr.sp.Alias[p[:i]]; ok {
+				p = a + p[i:]
+			}
+		}
+		out = append(out, p)
+	}
+	return out
 }
